@@ -62,11 +62,27 @@ def run(ctx):
             except AclError:
                 raised = True
             rec.update({"out": cases.jtree(out), "out2": cases.jtree(out2), "raised": raised})
-            # library entry point: filter_config on text
         except Exception as e:
             rec.update({"out": [], "out2": [], "raised": False, "exc": repr(e)})
         recs.append(rec)
         ctx.count()
+        # library entry points: annet.annlib.filter_acl.make_acl / filter_config work on TEXT (parse, filter, print); the same judge
+        # decides what they return (cases whose tree survives the text round trip of the vendor's formatter)
+        if len(recs) % 3 == 0 and "exc" not in rec:
+            from annet.annlib import filter_acl, tabparser
+            fmt = E.registry()[vendor].make_formatter()
+            try:
+                cfg_text = fmt.join(cases.tree(tj))
+                if cases.jtree(tabparser.parse_to_tree(cfg_text, fmt.split)) == tj:
+                    lib_acl = filter_acl.make_acl(text, vendor)
+                    o1 = filter_acl.filter_config(lib_acl, fmt, cfg_text)
+                    o2 = filter_acl.filter_config(lib_acl, fmt, o1)
+                    lrec = dict(rec, id=rec["id"] + "-lib", out=cases.jtree(tabparser.parse_to_tree(o1, fmt.split)),
+                                out2=cases.jtree(tabparser.parse_to_tree(o2, fmt.split)))
+                    recs.append(lrec)
+                    ctx.count()
+            except Exception as e:
+                recs.append(dict(rec, id=rec["id"] + "-lib", out=[], out2=[], exc="filter_config: " + repr(e)))
         n_in = sum(1 for _ in _paths(tj))
         n_out = sum(1 for _ in _paths(rec["out"]))
         if 0 < n_out < n_in:
